@@ -207,10 +207,16 @@ def main():
     payload = json.load(sys.stdin)
     sys.setrecursionlimit(1500)
     res = []
+    import contextvars
+
+    def one(case):
+        W = RunWorld(case["prog"])
+        return [W.op(op) for op in case["ops"]]
     for case in payload["cases"]:
         try:
-            W = RunWorld(case["prog"])
-            res.append([W.op(op) for op in case["ops"]])
+            # every program runs in a context of its own: what one program leaves in the in-progress
+            # variable must not be taken for the next one's
+            res.append(contextvars.Context().run(one, case))
         except BaseException as err:  # noqa
             res.append({"defn_error": type(err).__name__, "msg": str(err)[:300]})
     json.dump(res, sys.stdout)
